@@ -216,7 +216,7 @@ class Gen(object):
         if kind == "notype":
             self.recv(c, {"foo": "bar"})
         elif kind == "unknown":
-            self.recv(c, {"type": self.r.choice(["bogus", "", "OPEN", "welcome"])})
+            self.recv(c, {"type": self.r.choice(["bogus", "", "OPEN", "welcome", None, 5, "ping ", "Bind"])})
         elif kind == "nofield":
             self.recv(c, self.r.choice([{"type": "bind"}, {"type": "bind", "appid": "a"}, {"type": "bind", "side": "s1"},
                                         {"type": "claim"}, {"type": "open"}, {"type": "add"}, {"type": "add", "phase": "p"},
